@@ -41,7 +41,7 @@ def strategy(tier, ctx):
     return gen.history_plan_st(
         tier, max_steps=14 if tier == "quick" else 25,
         config_kw=dict(arm_kinds=("int", "str", "float", "mix"), max_arms=4, with_binarizer=True, scale_ok=True,
-                       n_jobs_choices=(1, 1, 1, 1, 1, 1, 1, 2), defaults_ok=True),
+                       n_jobs_choices=(1, 1, 1, 1, 1, 1, 1, 2, 3, 4), defaults_ok=True),
         hist_kw=dict(max_rows=8),
         kinds=gen.TRAIN_KINDS + gen.ARM_KINDS * 2 + gen.QUERY_KINDS * 3 + gen.WARM_KINDS,
         start_fitted=False, binarizer_on_add=True)
